@@ -39,6 +39,7 @@ type Chooser interface {
 
 type zeroChooser struct{}
 
+//go:norace
 func (zeroChooser) Choose([]uint8, string) int { return 0 }
 
 // Thread is one controlled thread.
@@ -49,7 +50,7 @@ type Thread struct {
 	wake  chan struct{}
 	done  bool
 	// while parked at a point:
-	en       func() bool // nil = enabled
+	en       Cond // nil = enabled
 	label    string
 	idleWait bool // enabled only when nothing else is
 	asleep   bool // parked in Sleep: quiescent, not deadlocked
@@ -76,7 +77,7 @@ type World struct {
 	nextGrp int
 
 	finished chan struct{}
-	finOnce  sync.Once
+	finDone  bool
 
 	// results
 	Deadlock    bool
@@ -90,10 +91,10 @@ type World struct {
 	MapRev      bool
 
 	tickers []*Ticker
-	chans   map[uintptr]*chanState
+	chans   []chanEntry
 
 	StateKey func() uint64 // optional: harness part of the state key
-	States   map[uint64]struct{}
+	States   *StateSet
 
 	Panics []string // panics of controlled threads (code under test) outside teardown
 
@@ -106,23 +107,39 @@ var (
 )
 
 // W returns the current world, or nil in pass-through mode.
-func W() *World { return curWorld }
+//
+//go:norace
+func W() *World {
+	return curWorld
+}
 
 // NewWorld installs a fresh world. One world at a time per process.
+//
+//go:norace
 func NewWorld(ex Chooser) *World {
 	if ex == nil {
 		ex = zeroChooser{}
 	}
 	genCtr++
-	w := &World{Gen: genCtr, ex: ex, finished: make(chan struct{}), chans: map[uintptr]*chanState{}, MaxAdvances: 2}
+	w := &World{Gen: genCtr, ex: ex, finished: make(chan struct{}), MaxAdvances: 2}
 	curWorld = w
 	return w
 }
 
-func (w *World) Cur() *Thread   { return w.cur }
-func (w *World) Closing() bool  { return w.closing }
+//go:norace
+func (w *World) Cur() *Thread {
+	return w.cur
+}
+
+//go:norace
+func (w *World) Closing() bool {
+	return w.closing
+}
+
+//go:norace
 func (w *World) Threads() []*Thread { return w.threads }
 
+//go:norace
 func (w *World) newThread(name string, group int) *Thread {
 	t := &Thread{ID: len(w.threads), Name: name, Group: group, wake: make(chan struct{}, 1), exited: make(chan struct{})}
 	w.threads = append(w.threads, t)
@@ -131,6 +148,8 @@ func (w *World) newThread(name string, group int) *Thread {
 
 // Run executes body as thread 0 and returns when it has finished (or the world
 // deadlocked). The caller must then call Close.
+//
+//go:norace
 func (w *World) Run(body func()) {
 	t := w.newThread("main", w.newGroup())
 	w.cur = t
@@ -139,32 +158,43 @@ func (w *World) Run(body func()) {
 	<-w.finished
 }
 
+//go:norace
 func (w *World) newGroup() int { w.nextGrp++; return w.nextGrp }
 
+//go:norace
 func (w *World) start(t *Thread, body func()) {
-	go func() {
-		defer close(t.exited)
-		raceDisable()
-		<-t.wake
-		raceEnable()
-		defer func() {
-			if r := recover(); r != nil {
-				if _, ok := r.(abortT); ok {
-					w.exit(t)
-					return
-				}
-				t.Panic = r
-				t.PanicStk = string(debug.Stack())
-				if !w.closing {
-					w.Panics = append(w.Panics, fmt.Sprintf("thread %s: panic: %v\n%s", t.Name, r, trimStack(t.PanicStk)))
-				}
-			}
-			w.exit(t)
-		}()
-		body()
-	}()
+	go w.threadMain(t, body)
 }
 
+//go:norace
+func (w *World) threadMain(t *Thread, body func()) {
+	defer close(t.exited)
+	raceDisable()
+	<-t.wake
+	raceEnable()
+	defer w.threadEnd(t)
+	body()
+}
+
+//go:norace
+func (w *World) threadEnd(t *Thread) {
+	r := recover()
+	raceReleaseMerge(&t.joinTok)
+	if r != nil {
+		if _, ok := r.(abortT); ok {
+			w.exit(t)
+			return
+		}
+		t.Panic = r
+		t.PanicStk = string(debug.Stack())
+		if !w.closing {
+			w.Panics = append(w.Panics, fmt.Sprintf("thread %s: panic: %v\n%s", t.Name, r, trimStack(t.PanicStk)))
+		}
+	}
+	w.exit(t)
+}
+
+//go:norace
 func trimStack(s string) string {
 	lines := strings.Split(s, "\n")
 	var out []string
@@ -179,12 +209,19 @@ func trimStack(s string) string {
 	return strings.Join(out, "\n")
 }
 
-func (w *World) finish() { w.finOnce.Do(func() { close(w.finished) }) }
+//go:norace
+func (w *World) finish() {
+	if !w.finDone {
+		w.finDone = true
+		close(w.finished)
+	}
+}
 
 // exit is called when a thread body has returned.
+//
+//go:norace
 func (w *World) exit(t *Thread) {
 	t.done = true
-	raceReleaseMerge(&t.joinTok)
 	if w.closing {
 		return
 	}
@@ -229,12 +266,22 @@ func (w *World) exit(t *Thread) {
 }
 
 // Bump records a real state change: sleepers may observe something new.
-func (w *World) Bump() { w.epoch++ }
+//
+//go:norace
+func (w *World) Bump() {
+	raceDisable()
+	w.epoch++
+	raceEnable()
+}
 
 // Advances reports how often time was advanced.
+//
+//go:norace
 func (w *World) Advances() int { return w.advances }
 
 // advanceTime wakes every sleeper ("time passes"); bounded by MaxAdvances.
+//
+//go:norace
 func (w *World) advanceTime() bool {
 	if w.advances >= w.MaxAdvances {
 		return false
@@ -253,6 +300,8 @@ func (w *World) advanceTime() bool {
 }
 
 // AdvanceTime lets the harness advance time explicitly (not counted against MaxAdvances).
+//
+//go:norace
 func (w *World) AdvanceTime() {
 	for _, u := range w.threads {
 		if !u.done && u.asleep {
@@ -262,6 +311,8 @@ func (w *World) AdvanceTime() {
 }
 
 // stuck: no thread can run.
+//
+//go:norace
 func (w *World) stuck(t *Thread) {
 	var blocked []string
 	for _, u := range w.threads {
@@ -274,11 +325,14 @@ func (w *World) stuck(t *Thread) {
 	w.finish()
 }
 
-func (t *Thread) isEnabled() bool { return !t.done && (t.en == nil || t.en()) }
+//go:norace
+func (t *Thread) isEnabled() bool { return !t.done && (t.en == nil || t.en.Ready()) }
 
 // candidates in canonical order: the running thread first (if enabled), then
 // the other enabled threads of its group by id, then the rest by id. Idle
 // waiters are candidates only when nothing else is.
+//
+//go:norace
 func (w *World) candidates(t *Thread, includeSelf bool) []*Thread {
 	var same, other, idle []*Thread
 	for _, u := range w.threads {
@@ -315,7 +369,54 @@ func (w *World) candidates(t *Thread, includeSelf bool) []*Thread {
 // Point is a scheduling point of the running thread. en==nil: the pending
 // operation can complete; otherwise the thread is disabled until en() holds.
 // free: every switch at this point costs nothing (step boundaries).
+//
+//go:norace
 func (w *World) Point(label string, free bool, en func() bool) {
+	if en == nil {
+		w.PointC(label, free, nil)
+		return
+	}
+	w.PointC(label, free, funcCond{en})
+}
+
+// Cond is the enabling condition of a blocked operation. Implementations used by the
+// shims are methods carrying //go:norace (closures would be instrumented by -race).
+type Cond interface{ Ready() bool }
+
+type funcCond struct{ f func() bool }
+
+//go:norace
+func (c funcCond) Ready() bool { return c.f() }
+
+type neverCond struct{}
+
+//go:norace
+func (neverCond) Ready() bool { return false }
+
+// Never is the condition of an operation that can never complete (nil channel).
+var Never Cond = neverCond{}
+
+type joinCond struct{ ts []*Thread }
+
+//go:norace
+func (c joinCond) Ready() bool {
+	for _, t := range c.ts {
+		if !t.done {
+			return false
+		}
+	}
+	return true
+}
+
+// AllDone is the condition "all given threads have finished".
+//
+//go:norace
+func AllDone(ts []*Thread) Cond { return joinCond{ts} }
+
+// PointC is Point with a Cond.
+//
+//go:norace
+func (w *World) PointC(label string, free bool, en Cond) {
 	t := w.cur
 	if w.closing {
 		return
@@ -401,6 +502,8 @@ func (w *World) Point(label string, free bool, en func() bool) {
 
 // park blocks the calling goroutine (the thread's own, or a nested helper
 // acting for it) until the thread is scheduled again or the world closes.
+//
+//go:norace
 func (w *World) park(t *Thread) {
 	raceDisable()
 	<-t.wake
@@ -417,6 +520,8 @@ var errAbort = abortT{}
 
 // ChooseFault asks the chooser whether to inject one of n fault kinds at the
 // current I/O point. Returns 0 for none.
+//
+//go:norace
 func (w *World) ChooseFault(n int, label string) int {
 	if w.closing || n <= 0 {
 		return 0
@@ -429,6 +534,8 @@ func (w *World) ChooseFault(n int, label string) int {
 }
 
 // ChooseEnv is a harness-level choice among n alternatives (alternative 0 free, others cost kind).
+//
+//go:norace
 func (w *World) ChooseEnv(n int, kind uint8, label string) int {
 	if w.closing || n <= 1 {
 		return 0
@@ -440,11 +547,12 @@ func (w *World) ChooseEnv(n int, kind uint8, label string) int {
 	return w.ex.Choose(kinds, "env@"+label)
 }
 
+//go:norace
 func (w *World) noteState() {
 	if w.States == nil {
 		return
 	}
-	if len(w.States) > 4_000_000 {
+	if w.States.Len() > 4_000_000 {
 		return
 	}
 	h := uint64(1469598103934665603)
@@ -458,9 +566,10 @@ func (w *World) noteState() {
 	if w.StateKey != nil {
 		mix(w.StateKey())
 	}
-	w.States[h] = struct{}{}
+	w.States.Add(h)
 }
 
+//go:norace
 func b2u(b bool) uint64 {
 	if b {
 		return 1
@@ -469,8 +578,10 @@ func b2u(b bool) uint64 {
 }
 
 // Go starts a controlled thread in a new group (the `go` statement).
+//
+//go:norace
 func Go(f func()) {
-	w := curWorld
+	w := W()
 	if w == nil {
 		go f()
 		return
@@ -485,6 +596,8 @@ func Go(f func()) {
 }
 
 // GoNamed starts a named harness thread in a new group.
+//
+//go:norace
 func (w *World) GoNamed(name string, f func()) *Thread {
 	t := w.newThread(name, w.newGroup())
 	w.start(t, f)
@@ -492,6 +605,8 @@ func (w *World) GoNamed(name string, f func()) *Thread {
 }
 
 // GoInGroup starts a thread in the running thread's group (joinable child).
+//
+//go:norace
 func (w *World) GoInGroup(f func()) *Thread {
 	p := w.cur
 	t := w.newThread(fmt.Sprintf("%s.%d", p.Name, len(w.threads)), p.Group)
@@ -500,26 +615,37 @@ func (w *World) GoInGroup(f func()) *Thread {
 	return t
 }
 
-func (t *Thread) Done() bool { return t.done }
+//go:norace
+func (t *Thread) Done() bool {
+	return t.done
+}
 
 // JoinAcquire establishes the happens-before edge from t's exit.
+//
+//go:norace
 func (t *Thread) JoinAcquire() { raceAcquire(&t.joinTok) }
 
 // Boundary is a step boundary of a harness script: all switches are free.
+//
+//go:norace
 func Boundary(label string) {
-	if w := curWorld; w != nil {
+	if w := W(); w != nil {
 		w.Point("boundary:"+label, true, nil)
 	}
 }
 
 // Yield is a plain scheduling point (environment operations, I/O).
+//
+//go:norace
 func Yield(label string) {
-	if w := curWorld; w != nil {
+	if w := W(); w != nil {
 		w.Point(label, false, nil)
 	}
 }
 
 // WaitIdle blocks the calling thread until no other thread can run.
+//
+//go:norace
 func (w *World) WaitIdle() {
 	if w.closing {
 		return
@@ -531,24 +657,23 @@ func (w *World) WaitIdle() {
 }
 
 // Join blocks until all given threads are done.
+//
+//go:norace
 func (w *World) Join(ts ...*Thread) {
-	w.Point("join", true, func() bool {
-		for _, t := range ts {
-			if !t.done {
-				return false
-			}
-		}
-		return true
-	})
+	w.PointC("join", true, joinCond{ts})
 	for _, t := range ts {
 		t.JoinAcquire()
 	}
 }
 
 // passive: parked for good by design (sleeping / waiting for a tick), not deadlocked.
+//
+//go:norace
 func (w *World) passive(u *Thread) bool { return u.asleep || w.tickerBlocked(u) }
 
 // Quiescent reports whether every unfinished thread other than the caller is asleep.
+//
+//go:norace
 func (w *World) Quiescent() bool {
 	for _, u := range w.threads {
 		if u != w.cur && !u.done && !w.passive(u) {
@@ -560,6 +685,8 @@ func (w *World) Quiescent() bool {
 
 // Blocked lists unfinished threads (other than the caller) that are neither
 // enabled nor asleep — i.e. waiting for something that may never come.
+//
+//go:norace
 func (w *World) Blocked() []string {
 	var out []string
 	for _, u := range w.threads {
@@ -575,6 +702,8 @@ func (w *World) Blocked() []string {
 // time (newest first) with all shim operations non-blocking, so that it
 // unwinds through its normal error paths. Returns an error text if a thread
 // did not finish.
+//
+//go:norace
 func (w *World) Close() string {
 	w.closing = true
 	var problems []string
@@ -606,4 +735,51 @@ func (w *World) Close() string {
 // Contentions counts Lock calls that found the mutex held (non-vacuity counter).
 var Contentions int64
 
+//go:norace
 func CountContention() { Contentions++ }
+
+// StateSet is an open-addressing set of 64-bit state keys (no runtime map: the race
+// detector instruments map operations even in norace code).
+type StateSet struct {
+	tab []uint64
+	n   int
+}
+
+//go:norace
+func NewStateSet() *StateSet { return &StateSet{tab: make([]uint64, 1024)} }
+
+//go:norace
+func (s *StateSet) Len() int {
+	if s == nil {
+		return 0
+	}
+	return s.n
+}
+
+//go:norace
+func (s *StateSet) Add(h uint64) {
+	if h == 0 {
+		h = 1
+	}
+	if s.n*2 >= len(s.tab) {
+		old := s.tab
+		s.tab = make([]uint64, len(old)*2)
+		s.n = 0
+		for _, x := range old {
+			if x != 0 {
+				s.Add(x)
+			}
+		}
+	}
+	mask := uint64(len(s.tab) - 1)
+	for i := h & mask; ; i = (i + 1) & mask {
+		if s.tab[i] == h {
+			return
+		}
+		if s.tab[i] == 0 {
+			s.tab[i] = h
+			s.n++
+			return
+		}
+	}
+}
